@@ -411,7 +411,34 @@ def rule_f(ctx: Ctx) -> None:
     ctx.min_instances("functions_scanned", n, 3)
 
 
-RULES = [rule_a, rule_b, rule_c, rule_d, rule_e, rule_f]
+def rule_g(ctx: Ctx) -> None:
+    ctx.rule("C12.g", "the type annotation is encoded whole: what dump() stores under TYPE is dump(<the node's type>) itself, never a projection of it "
+                      "(node.type.this, a conditional compact form): scalar arguments of a parameterless type (nullable, kind) live on the DataType node")
+    d = ctx.repo.func(SERDE, "dump")
+    m = d.module
+    stores = [st for st in walk_no_nested(d.node) if isinstance(st, ast.Assign) and len(st.targets) == 1 and norm(st.targets[0]) == "payload[TYPE]"]
+    ctx.require(bool(stores), "anchor vanished: dump() no longer stores payload[TYPE]")
+    aliases = {"node.type"}
+    for st in walk_no_nested(d.node):
+        if isinstance(st, ast.Assign) and len(st.targets) == 1 and isinstance(st.targets[0], ast.Name) and norm(st.value) == "node.type":
+            aliases.add(st.targets[0].id)
+    for st in stores:
+        v = st.value
+        inst = f"{d.key}|{norm(st, 80)}"
+        if isinstance(v, ast.Call) and (call_name(v) or "").split(".")[-1] in ("dump", "_dump_type") and len(v.args) == 1:
+            a = v.args[0]
+            if norm(a) in aliases:
+                ctx.ok(inst, {"encodes": norm(a)})
+            elif any(isinstance(x, ast.Attribute) and norm(x.value) in aliases and x.attr not in ("copy",) for x in ast.walk(a)):
+                ctx.fail(m, st, d.key, st, f"the TYPE payload encodes `{norm(a, 60)}`, a projection of the node's type: arguments kept on the DataType node itself "
+                                           f"(nullable, kind, comments) are lost by load(dump(x))")
+            else:
+                ctx.ok(inst, {"decided": False, "note": "argument form not recognised"})
+        else:
+            ctx.ok(inst, {"decided": False, "note": "encoder form not recognised"})
+
+
+RULES = [rule_a, rule_b, rule_c, rule_d, rule_e, rule_f, rule_g]
 THOROUGH_RULES = [rule_c_args]
 EXPLANATION = (
     "Writer/reader agreement of the serialisation format decided from the source: set equality between payload keys "
